@@ -101,6 +101,7 @@ AlphaQ1 == {Txt, St("noscript"), En("noscript"), St("img"), St("embed"), St("div
             St("script"), En("script"), Com}
 AlphaQ2 == {Txt, Amp, St("object"), En("object"), St("iframe"), En("iframe"), Sc("br"), St("p"),
             En("p"), St("style"), En("style")}
+AlphaQ3 == {Txt, St("noscript"), En("noscript"), St("img"), St("div"), En("div")}     \* deep, few tokens
 AlphaT  == {Txt, Amp, Com, Cds,
             St("noscript"), En("noscript"), St("object"), En("object"), St("iframe"), En("iframe"),
             St("script"), En("script"), St("div"), En("div"), St("p"), En("p"),
